@@ -88,7 +88,7 @@ class Tree:
 
 
 def generate(rng, depth=2, n_files=14, symlinks=True, outside_links=False, big=False, root_index=None, plant_secrets=True,
-             sizes=None, tag="t"):
+             sizes=None, tag="t", root_404=None):
     t = Tree()
     t.base = core.scratch("tree-")
     t.root = os.path.join(t.base, "outer2", "outer1", "root")
@@ -161,7 +161,9 @@ def generate(rng, depth=2, n_files=14, symlinks=True, outside_links=False, big=F
         mk = marker("MK", tag, "/index.html")
         t.add_file("/index.html", content(rng, 150, mk, "text"))
         t.markers[mk] = "/index.html"
-    if rng.chance(1, 2):
+    if root_404 is None:
+        root_404 = rng.chance(1, 2)
+    if root_404:
         mk = marker("MK", tag, "/404.html")
         t.add_file("/404.html", content(rng, 90, mk, "text"))
         t.markers[mk] = "/404.html"
